@@ -1006,6 +1006,8 @@ func round7(w *World, r *Report, prop string) {
 		r.Rule("R11.15", "every error the compiler raises comes back as an error: Compiler.recover re-raises a recovered value only when it is a runtime.Error", 1)
 		r.guard("R11.15", func() { r7RecoverReraisesRuntimeOnly(w, r, "R11.15") })
 	case "C12":
+		r.Rule("R12.14", "refinements of repeatable statements are additional: in applyChange a statement of cardinality 'n' on the target is added on every path, and replacing is done for cardinality '1' alone", 1)
+		r.guard("R12.14", func() { r8RefineAdds(w, r, "R12.14") })
 		r.Rule("R12.13", "a node copied by uses keeps every if-feature it passed through: IgnoreNode puts each if-feature statement of the node to CheckIfFeature (no skipping of statements with the same text — they may name features of different modules)", 1)
 		r.guard("R12.13", func() { r7EveryIfFeatureChecked(w, r, "R12.13") })
 	case "C13":
@@ -1017,6 +1019,8 @@ func round7(w *World, r *Report, prop string) {
 		r.Rule("R14.14", "deviate replace replaces: deviateReplace.propertyAction returns its error whenever the target has no statement of that kind", 1)
 		r.guard("R14.14", func() { r7ReplaceNeedsExisting(w, r, "R14.14") })
 	case "C15":
+		r.Rule("R15.16", "every must written in a refine is attached (and so compiled in the refining module's scope): in applyChange a statement of cardinality 'n' on the target is added on every path, whatever the node already carries", 1)
+		r.guard("R15.16", func() { r8RefineAdds(w, r, "R15.16") })
 		r.Rule("R15.14", "a compile error names the place where the expression is written: error locations are computed from node.tree; node.useTree is read by UsesRoot alone (same analysis as R11.12)", 2)
 		r.guard("R15.14", func() { c11UseTreeReaders(w, r, "R15.14") })
 		r.Rule("R15.15", "a prefix is resolved as it is written: the LexName of the leafref and of the common lexer hand the prefix text to the prefix map without changing its case or trimming it", 2)
@@ -1522,4 +1526,67 @@ func r8EscapesOnlyWhenDoubleQuoted(w *World, r *Report, rule string) {
 	}
 	sort.Strings(callers)
 	r.Check(len(callers) == 0, rule, "escapeSequenceSubstitution is used by trimWhitespace only", esc.Pos(), fmt.Sprintf("%d use(s), all in trimWhitespace", n), "escape sequences are also substituted in "+strings.Join(callers, ", ")+": an unquoted (or single-quoted) argument containing a backslash is decoded like a double-quoted one, so `c:\\\\temp\\new` loses its backslashes and gains a line feed")
+}
+
+// r8RefineAdds (R12.14 / R15.16): in applyChange a statement whose cardinality
+// on the target is 'n' is added — always, and nothing is replaced or removed
+// for it; replacement is for cardinality '1' alone.
+func r8RefineAdds(w *World, r *Report, rule string) {
+	f := w.SSAFunc(w.Method("compile", "Compiler", "applyChange"))
+	if f == nil {
+		panic(undecided{"Compiler.applyChange"})
+	}
+	sym := NewSym(w)
+	sym.Expand = false
+	var card *ssa.Call
+	for _, b := range f.Blocks {
+		for _, in := range b.Instrs {
+			if c, ok := in.(*ssa.Call); ok && c.Call.IsInvoke() && nm(c.Call.Method) == "GetCardinalityEnd" {
+				card = c
+			}
+		}
+	}
+	if card == nil {
+		panic(undecided{"applyChange: the cardinality of the statement on the target is not asked for"})
+	}
+	key := sym.Key(card, nil)
+	why := ""
+	nAdd := 0
+	for _, b := range f.Blocks {
+		for _, in := range b.Instrs {
+			c, ok := in.(*ssa.Call)
+			if !ok || !c.Call.IsInvoke() {
+				continue
+			}
+			name := nm(c.Call.Method)
+			if name != "AddChildren" && !strings.HasPrefix(name, "Replace") {
+				continue
+			}
+			if !(card.Block() == b || card.Block().Dominates(b)) {
+				continue
+			}
+			cond := sym.PathCond(card.Block(), b, nil)
+			if name == "AddChildren" {
+				nAdd++
+				msg := pcCompare(cond, func(a *pcAtom) string {
+					if a.subj == key && a.set.equal(isetOf('n')) {
+						return "n"
+					}
+					return ""
+				}, func(env map[string]bool) bool { return env["n"] })
+				if msg != "" {
+					why = "a statement of cardinality 'n' is not always added (" + msg + ")"
+				}
+				continue
+			}
+			vals, decided := pcValuesWhen(cond, key)
+			if !decided || !vals.equal(isetOf('1')) {
+				why = name + " is also reached for a cardinality other than '1'"
+			}
+		}
+	}
+	if nAdd == 0 {
+		why = "no AddChildren for cardinality 'n'"
+	}
+	r.Check(why == "", rule, "applyChange: cardinality 'n' adds, cardinality '1' replaces", f.Pos(), "AddChildren ⇔ 'n'; Replace* ⇒ '1'", why+": a must (or another repeatable statement) written in a refine or augment replaces, or is dropped in favour of, one the node already has — RFC 6020 §7.12.2 makes refined musts additional, and each is compiled in the scope of the module it is written in")
 }
